@@ -165,7 +165,22 @@ package saml
 //@ requires el: el != nil
 //@ requires[cfg] fp: sp.IDPCertificateFingerprint != nil && sp.IDPCertificateFingerprintAlgorithm != nil
 //@ ensures[C01,C18] single: err == nil ==> len(result) == 1
+//@ -- the one certificate returned is the certificate parsed from the signature's KeyInfo, and its fingerprint under the
+//@ -- configured algorithm equals the configured fingerprint
+//@ assert@call[C01,C18] fingerprint #1 (c *x509.Certificate, alg string) uses cert *x509.Certificate fingerprint_of_that_certificate:
+//@    c == cert && c != nil && alg == *sp.IDPCertificateFingerprintAlgorithm
+//@ assert@return[C01,C18] #last (out []*x509.Certificate, e error) uses cert *x509.Certificate, finP string, x509CertEl *etree.Element pinned_certificate_only:
+//@    e == nil && len(out) == 1 && out[0] == cert && *sp.IDPCertificateFingerprint == finP &&
+//@    x509CertEl == el.FindElement("./Signature/KeyInfo/X509Data/X509Certificate")
 //@ records ret: ReturnedFingerprintCerts(sp, el, result, err)
+
+//@ -- the fingerprint is the formatted digest of the certificate's raw bytes under the named algorithm; unknown algorithms fail
+//@ contract fingerprint
+//@ requires c: cert != nil
+//@ ensures[C01,C18] known_algorithms_only: err == nil ==>
+//@    fingerprintAlgorithm == "http://www.w3.org/2001/04/xmlenc#sha256" || fingerprintAlgorithm == "http://www.w3.org/2001/04/xmlenc#sha512"
+//@ assert@call[C01,C18] Sum256 #1 (data []byte) digest_of_raw_certificate: sameBytes(data, cert.Raw) && fingerprintAlgorithm == "http://www.w3.org/2001/04/xmlenc#sha256"
+//@ assert@call[C01,C18] Sum512 #1 (data []byte) digest_of_raw_certificate_512: sameBytes(data, cert.Raw) && fingerprintAlgorithm == "http://www.w3.org/2001/04/xmlenc#sha512"
 
 //@ contract (*ServiceProvider).validateSignature
 //@ requires el: el != nil
